@@ -203,7 +203,7 @@ theorem matchFin_tok (d : Bool × List Str × Bool) (t : Str) (ht : t ≠ []) (F
 
 /-! ### the five instances -/
 
-def varFollows : List (Option Nat) := [none, some 32, some 9, some 41, some 60, some 61, some 62, some 33, some 126]
+def varFollows : List (Option Nat) := [none, some 32, some 9, some 41, some 60, some 61, some 62, some 33, some 126, some 10]
 def opFollows : List (Option Nat) := [some 32, some 9, some 34, some 39, some 112, some 111, some 115, some 105, some 101]
 def inFollows : List (Option Nat) := [some 32, some 9, some 34, some 39]
 def notFollows : List (Option Nat) := [some 32, some 9]
@@ -325,6 +325,10 @@ theorem check_rparen (p : Option Nat) (K : Str) : St.check .rparen ⟨p, 41 :: K
   simp [St.check, match_rparen, lastOr]
 
 theorem check_end_nil (p : Option Nat) : St.check .end_ ⟨p, []⟩ = some ([], ⟨p, []⟩) := by
+  simp [St.check, matchRule, matchEnd, lastOr]
+
+/-- `$` also matches just before a final newline -/
+theorem check_end_nl (p : Option Nat) : St.check .end_ ⟨p, [10]⟩ = some ([], ⟨p, [10]⟩) := by
   simp [St.check, matchRule, matchEnd, lastOr]
 
 end MkLay
